@@ -71,7 +71,7 @@ package layer4
 // prefetch pulls at most one chunk from the inner conn and buffers every byte it pulled.
 //@ func (cx *Connection) prefetch() (err error)
 //@ requires wf(cx) && cx.Logger != nil
-//@ safety C04
+//@ safety C04 C08
 //@ assigns[C01] cx.buf, cx.bytesRead, rpos(cx.Conn)
 //@ modifies ghost:inpool, elem:uint8
 //@ ensures[C01] wf(cx) && vpos(cx) == old(vpos(cx)) && cx.offset == old(cx.offset)
@@ -179,7 +179,7 @@ package layer4
 //@ func (l *listener) pipeConnection(conn *Connection) (err error)
 //@ requires l != nil && l.connChan != nil && wfcx(conn)
 //@ requires[inv] isnil(ctxval(conn.Context, VarsCtxKey).(map[string]any)["tls_connection_states"]) || istype(ctxval(conn.Context, VarsCtxKey).(map[string]any)["tls_connection_states"], []*tls.ConnectionState)
-//@ safety C13
+//@ safety C13 C08
 //@ ensures[C13] err == errHijacked
 //@ ensures[C13] sends(l.connChan) == old(sends(l.connChan)) + 1
 //@ ensures[ghost] escaped(arr(conn.buf))
@@ -187,7 +187,7 @@ package layer4
 //@ func (l *listener) handle(conn net.Conn)
 //@ requires l != nil && conn != nil && l.compiledRoute != nil && l.logger != nil && l.wg != nil
 //@ requires 0 <= rpos(conn) && rpos(conn) < 4611686018427387904
-//@ safety C13
+//@ safety C13 C08
 
 // The fallback of a listener wrapper: forwards to pipeConnection, hence refines the handler
 // interface (the buffer escapes only together with the hijack sentinel).
